@@ -136,6 +136,11 @@ type U struct {
 	Forks  []*Branch
 	K1, K2 Key
 	W1, W2 WitKey
+	// W3 has the NAME of log key K1 (an operator running a log and a witness
+	// under one name) but its own key material.
+	W3 WitKey
+	// W4: a witness key whose name contains a slash.
+	W4 WitKey
 
 	mu          sync.Mutex
 	SignedTexts map[string]map[string]bool // key name -> set of note texts
@@ -149,6 +154,8 @@ func New(seed int64, n int, divs []int) *U {
 	u.K2 = NewKey("verif-log-two", seed)
 	u.W1 = NewWitKey("verif-witness", seed)
 	u.W2 = NewWitKey("verif-witness-b", seed)
+	u.W3 = NewWitKey("verif-log-one", seed+31337)
+	u.W4 = NewWitKey("witness.verif.example/w4", seed)
 	mk := func(name string, div int) *Branch {
 		b := &Branch{Name: name, Div: div}
 		for i := 0; i < n; i++ {
